@@ -18,6 +18,9 @@ GNext == Next /\ tr' = tr \o StepOf(ev')
 EdgeView == <<rules, env, NM(ws), NM(cache), hist, NM(fstab), rdir, ClockView, mode, goal, plan, TlView, inbox, rxAlive,
               mj, merrs, mstat, NM(mfst), early, verdict, ev, g.nuser>>
 
+\* finer: the ghost record (pre-state of the invocation, what was backed up / taken / executed) also distinguishes paths
+EdgeViewG == <<EdgeView, GView>>
+
 EmitHeader == (ev.a = "init") => PrintT(<<"SCENARIO", ToJson([ord |-> Ord0, menu |-> Menu, init |-> Init0])>>)
 EmitPrefix == (Free /\ mode # "idle") => PrintT(<<"PREFIX", ToJson(tr)>>)
 \* for simulation mode: one complete behaviour per line
